@@ -3,8 +3,8 @@ import ComposeVerif.Model.ShortShell
 # Specification: the shell-words grammar of a command string (C03, round 6)
 
 A command line is a list of words separated by non-empty runs of blanks (space, tab, CR, LF); a word is a non-empty list
-of segments: a run of ordinary characters, a single-quoted text (anything but `'`), a double-quoted text (anything but
-`"` and `\`), or an escaped character. Its long form is the list of the words' values — the list spelling of
+of segments: a run of ordinary characters, a single-quoted text (anything but `'`), a double-quoted text (`\c` = the character `c`;
+no bare `"`), or an escaped character. Its long form is the list of the words' values — the list spelling of
 `command` / `entrypoint`.
 -/
 namespace CV.Short.Spec
@@ -13,6 +13,18 @@ open CV CV.Short
 /-- characters with no meaning to the parser: not a blank, not one of ``\ ` ( ) " ' ; & | < >`` -/
 def ordinary (c : Char) : Bool :=
   !(shIsSpace c) && c ≠ '\\' && c ≠ '`' && c ≠ ')' && c ≠ '(' && c ≠ '"' && c ≠ '\'' && !(shIsOp c)
+
+/-- the text between double quotes: `\c` stands for `c` (any `c`), every other character for itself -/
+def dqValue : Str → Str
+  | '\\' :: c :: r => c :: dqValue r
+  | c :: r => c :: dqValue r
+  | [] => []
+
+/-- no unescaped `"` inside, no lone `\` at the end -/
+def dqWf : Str → Bool
+  | '\\' :: _ :: r => dqWf r
+  | c :: r => c ≠ '\\' && c ≠ '"' && dqWf r
+  | [] => true
 
 inductive ShSeg
   | plain (s : Str)
@@ -30,13 +42,13 @@ def ShSeg.render : ShSeg → Str
 def ShSeg.value : ShSeg → Str
   | .plain s => s
   | .sq s => s
-  | .dq s => s
+  | .dq s => dqValue s
   | .esc c => [c]
 
 def ShSeg.wf : ShSeg → Bool
   | .plain s => s ≠ [] && s.all ordinary
   | .sq s => s.all (· ≠ '\'')
-  | .dq s => s.all fun c => c ≠ '"' && c ≠ '\\'
+  | .dq s => dqWf s
   | .esc _ => true
 
 /-- a word and the run of blanks in front of it -/
